@@ -5,6 +5,11 @@ package keyvalue
 // Contracts for govc, the contract verifier under /verif (see /verif/DESIGN.md).
 // This file contains comments only; it adds no code under any build tag.
 
+// time.Time is modelled as the instant it denotes (one integer, 0 = the zero instant in any location)
+//@ extern time.(Time).IsZero() (z bool)
+//@   pure
+//@   ensures "zero" z == (self == 0)
+
 // ---- FileRecord (assumed for store-provided records; deterministic accessors) ----
 
 //@ interface FileRecord.Data() (b blob.Blob, err error)
